@@ -42,6 +42,7 @@ pub enum Un {
     ScaleZero,
     ScaleOne,
     ScaleBig, // gain 4: float frames leave [-1, 1] (scale probes only, not in UNARY)
+    ClipZero, // clip_amp(0): every channel limited to [-0, 0] = equilibrium (scale probes only)
     Offset,
     ScalePC,
     OffsetPC,
@@ -87,6 +88,7 @@ impl Node {
                     Un::ScalePC => "scale_pc".into(),
                     Un::OffsetPC => "offset_pc".into(),
                     Un::Clip => "clip".into(),
+                    Un::ClipZero => "clip_zero".into(),
                     Un::Inspect => "inspect".into(),
                     Un::Delay(k) => format!("delay{k}"),
                 },
@@ -195,6 +197,7 @@ fn parse_node(s: &str) -> Option<(Node, &str)> {
         "scale_pc" => Un::ScalePC,
         "offset_pc" => Un::OffsetPC,
         "clip" => Un::Clip,
+        "clip_zero" => Un::ClipZero,
         "inspect" => Un::Inspect,
         _ => Un::Delay(num("delay")?),
     };
@@ -536,6 +539,7 @@ fn un_model<F: Fr>(u: Un, m: Model<F>, h: usize) -> Model<F> {
         Un::ScalePC => pt(&|f| f.abs_mul(F::scale_pc())),
         Un::OffsetPC => pt(&|f| f.abs_add(F::offset_pc())),
         Un::Clip => pt(&clip_ref::<F>),
+        Un::ClipZero => pt(&|_| F::EQUILIBRIUM),
         Un::Inspect => m,
         Un::Delay(k) => {
             let k = k as usize;
@@ -640,6 +644,7 @@ fn un_build<'a, F: Fr>(u: Un, child: Dyn<'a, F>, w: &mut Watch, delay_above: usi
         Un::ScalePC => Dyn(Box::new(child.scale_amp_per_channel(F::scale_pc()))),
         Un::OffsetPC => Dyn(Box::new(child.offset_amp_per_channel(F::offset_pc()))),
         Un::Clip => Dyn(Box::new(child.clip_amp(F::clip_t()))),
+        Un::ClipZero => Dyn(Box::new(child.clip_amp(<SgS<F> as Sample>::EQUILIBRIUM))),
         Un::Inspect => {
             // pre-reserved so that the harness-side log never allocates while the program runs (C07 audit)
             let log: Rc<RefCell<Vec<F>>> = Rc::new(RefCell::new(Vec::with_capacity(64)));
@@ -1004,6 +1009,18 @@ pub fn long_programs(ch: usize) -> Vec<Node> {
             v.push(Node::B(b, Box::new(big(l(leaf))), l(Leaf::Probe(3))));
             v.push(Node::B(b, l(Leaf::Probe(3)), Box::new(big(l(leaf)))));
             v.push(big(Box::new(Node::B(b, l(leaf), l(Leaf::Iter(2))))));
+        }
+    }
+    // the smallest threshold: clip_amp(0) limits every channel to equilibrium
+    for leaf in [Leaf::Probe(3), Leaf::Iter(2), Leaf::GenMut] {
+        v.push(Node::U(Un::ClipZero, l(leaf)));
+        for u in UNARY {
+            v.push(Node::U(u, Box::new(Node::U(Un::ClipZero, l(leaf)))));
+            v.push(Node::U(Un::ClipZero, Box::new(Node::U(u, l(leaf)))));
+        }
+        for b in BINARY {
+            v.push(Node::B(b, Box::new(Node::U(Un::ClipZero, l(leaf))), l(Leaf::Probe(3))));
+            v.push(Node::U(Un::ClipZero, Box::new(Node::B(b, l(leaf), l(Leaf::Iter(2))))));
         }
     }
     for k in [31u16, 255, 256, 257, 1000] {
